@@ -442,3 +442,72 @@ func (f *FuncIVL) dischargeFreshFrames() {
 		}
 	}
 }
+
+// splitJoinAsserts: a dead-end block that only checks obligations (the cut back edge of a loop) and is entered
+// from several places is copied per incoming edge, so that each copy is checked on one path instead of on
+// a merged state (helps quantified invariants). Obligation names of the copies get the suffix @e<k>.
+func (f *FuncIVL) splitJoinAsserts() {
+	// jump threading: empty join blocks with a single successor are bypassed, so that the checks below are
+	// reached directly from the ends of the individual paths
+	for changed := true; changed; {
+		changed = false
+		for _, b := range f.Blocks {
+			for j, sc := range b.Succs {
+				if len(sc.Stmts) == 0 && len(sc.Succs) == 1 && sc.Loop == nil && sc != f.Entry && sc.Succs[0] != sc {
+					b.Succs[j] = sc.Succs[0]
+					changed = true
+				}
+			}
+		}
+	}
+	preds := map[int][]*Block{}
+	for _, b := range f.Blocks {
+		for _, s := range b.Succs {
+			preds[s.ID] = append(preds[s.ID], b)
+		}
+	}
+	n := len(f.Blocks)
+	for i := 0; i < n; i++ {
+		b := f.Blocks[i]
+		if len(b.Succs) != 0 || len(preds[b.ID]) < 2 || !strings.HasSuffix(b.Name, ".post") {
+			continue
+		}
+		hasAssert := false
+		for _, s := range b.Stmts {
+			if s.Kind == SAssert {
+				hasAssert = true
+			}
+		}
+		if !hasAssert {
+			continue
+		}
+		seen := map[*Block]bool{}
+		k := 0
+		for _, p := range preds[b.ID] {
+			if seen[p] {
+				continue
+			}
+			seen[p] = true
+			k++
+			if k == 1 {
+				continue // the first predecessor keeps the original block
+			}
+			cp := f.newBlock(b.Name)
+			for _, s := range b.Stmts {
+				c := *s
+				if s.Ob != nil {
+					ob := *s.Ob
+					ob.Name = fmt.Sprintf("%s@e%d", s.Ob.Name, k-1)
+					c.Ob = &ob
+					f.Obligs = append(f.Obligs, &ob)
+				}
+				cp.Stmts = append(cp.Stmts, &c)
+			}
+			for j, sc := range p.Succs {
+				if sc == b {
+					p.Succs[j] = cp
+				}
+			}
+		}
+	}
+}
